@@ -351,7 +351,7 @@ def parseAndWriteOutput(file: str, output_dir: str, config: Config,
                     if delete_after_parsing:
                         os.remove(file)
             else:
-                print(f"No PEL parsed for {file}")
+                print(f"No PEL parsed for {file}", file=sys.stderr)
         except Exception as e:
             print(f"No PEL parsed for {file}: {e}", file=sys.stderr)
 
